@@ -181,8 +181,8 @@ def timesetOf (a : Args) (byhour byminute bysecond : Option (List Int)) : Py.R (
     | .ok t => .ok (some t)
     | .error e => .error e
 
-/-- `rrule.__init__` (lines 432-702). -/
-def construct (a : Args) : Py.R Rule := do
+/-- `rrule.__init__` (lines 432-702) after the INTERVAL check. -/
+def constructBody (a : Args) : Py.R Rule := do
   let bysetpos ← normBysetpos a
   let byhour ← normUnit a.freq 4 a.interval a.dtstart.hh a.byhour 24
   let byminute ← normUnit a.freq 5 a.interval a.dtstart.mm a.byminute 60
@@ -197,6 +197,11 @@ def construct (a : Args) : Py.R Rule := do
          byweekno := a.byweekno.map sortedSet,
          byweekday := byweekdayOf a, bynweekday := bynweekdayOf a,
          byhour, byminute, bysecond, timeset }
+
+/-- `rrule.__init__`: `if interval < 1: raise ValueError("interval must be a positive integer")` (fix D-C01-interval;
+    RFC 5545: INTERVAL is a positive integer), then the normalisation. -/
+def construct (a : Args) : Py.R Rule :=
+  if a.interval < 1 then .error .ValueError else constructBody a
 
 /-- `if wkst is None: self._wkst = calendar.firstweekday()`: the week start the constructor works with, given the
     PROCESS-WIDE first weekday `fwd` (`calendar.setfirstweekday`), which the code reads exactly when `wkst` is
